@@ -1,6 +1,6 @@
 """Property -> rules wiring and MANIFEST metadata."""
 from . import facts
-from .rules import f5_trace, f6_kinds, f7_roots, f4_gc, f4_chan, f4_sched, f4_vm, f1_isa
+from .rules import f5_trace, f6_kinds, f7_roots, f4_gc, f4_chan, f4_sched, f4_vm, f1_isa, f9_casts
 
 
 def D(rec):
@@ -57,9 +57,30 @@ def c15(rec, tier):
     f4_vm.status_mapping(rec, F)
 
 
+def SY(rec):
+    S = facts.load("syn")
+    rec.configs.add("syn")
+    return S
+
+
+def c11(rec, tier):
+    F = D(rec)
+    S = SY(rec)
+    f9_casts.run_index_discipline(rec, F)
+    f9_casts.run_natives(rec, F, S)
+    f9_casts.run_arity_enforcement(rec, F, S)
+
+
 def c16(rec, tier):
     F = D(rec)
+    S = SY(rec)
+    f9_casts.run_natives(rec, F, S)
+    f9_casts.run_vm(rec, F)
+    f9_casts.run_arity_enforcement(rec, F, S)
+    f9_casts.run_receiver_soundness(rec, F, S)
+    f9_casts.run_static_slices(rec, F)
     f4_vm.frame_limit(rec, F)
+    f6_kinds.run(rec, F)
 
 
 def c17(rec, tier):
@@ -81,7 +102,7 @@ def c19(rec, tier):
     f4_vm.diagnostics_gate(rec, F)
 
 
-CHECKS = {"C05": c05, "C06": c06, "C07": c07, "C08": c08, "C09": c09, "C15": c15, "C16": c16, "C17": c17, "C18": c18, "C19": c19, "C20": c20}
+CHECKS = {"C05": c05, "C06": c06, "C11": c11, "C07": c07, "C08": c08, "C09": c09, "C15": c15, "C16": c16, "C17": c17, "C18": c18, "C19": c19, "C20": c20}
 
 META = {
     "C06": {
@@ -108,8 +129,14 @@ META = {
         "technique": "static analysis: dominating-guard extraction and reachability on MIR",
         "design_ref": "DESIGN.md §3 C15",
     },
+    "C11": {
+        "text": "Index discipline: every f64->usize cast in laythe_lib on an argument-derived value is dominated by an integrality test (necessary for 'fractional arguments raise and leave the receiver unchanged'); native argument contract (casts justified by declared kinds or dominating tests; arity enforcement siblings). Everything that is a function on values (sequence/map/stream semantics, Unicode indexing) is declined: no static argument in reach.",
+        "note": "Thin structural claim by design; see DESIGN.md §3 C11.",
+        "technique": "static analysis: cast taint with dominating-guard discharge on MIR",
+        "design_ref": "DESIGN.md §3 C11",
+    },
     "C16": {
-        "text": "Structural crash-freedom clauses over all natives and handlers: frame-limit guard dominates every push_frame; (further clauses added as rule families F9/F6 are wired in).",
+        "text": "Crash-freedom clauses decided over all 130 natives and all VM code: every unchecked cast (Value::to_num/to_bool/to_obj, ObjectRef::to_*) on an argument, callback result, iterator value, stack operand or element of a user object is justified by the declared ParameterKind, a dominating kind test, or a named compiler-provenance site; constant indices into args stay below the declared arity's minimum; call_native checks the signature first and the three signature testers agree; is_valid's table; superclass admissibility (receiver soundness); guarded slices of constant arrays; frame-limit guard dominates every push_frame; kind<->cast tables (F6).",
         "note": "Reachability of the ~40 'impossible state' internal_error sites is declined.",
         "technique": "static analysis: dominance + taint on MIR",
         "design_ref": "DESIGN.md §3 C16",
